@@ -702,10 +702,12 @@ func prependProductRule(P *Program, R *Report, rule string) {
 }
 
 // quietReturnsRule: see C09.k.
-var quietReasons = map[string]string{
-	"ourAcc.Index|int|>=|newAcc.Index":        "the update ends at or before the witness' index: nothing new",
-	"ourAcc.Time|int|>=|newAcc.Time":          "same index and not newer in time: nothing new",
-	"len(<revocation.Update>.Events)|int|==|0": "the update carries no events: nothing to apply",
+var quietReasons = []struct{ re, why string }{
+	{`^len\(<revocation\.Update>\.Events\)\|int\|(==\|0|<\|1)$`, "the update carries no events: nothing to apply"},
+	{`^ourAcc\.Index\|int\|(>=|==)\|newAcc\.Index$`, "the update ends at or before the witness' index (same index: the time decides, C09.c): nothing new"},
+	{`^newAcc\.Index\|int\|(<|==)\|ourAcc\.Index(\+1)?$`, "the same, written the other way round"},
+	{`^ourAcc\.Time\|int\|>=\|newAcc\.Time$`, "same index and not newer in time: nothing new"},
+	{`^newAcc\.Time\|int\|<\|ourAcc\.Time\+1$`, "the same, written the other way round"},
 }
 
 var newAccCall = regexp.MustCompile(`call:revocation\.\(\*Update\)\.Verify\([^)]*\)#0`)
@@ -729,15 +731,33 @@ func quietReturnsRule(P *Program, R *Report, rule string) {
 			continue
 		}
 		n++
-		conds := controllingConds(r.Block())
-		reason := "unconditional"
-		if len(conds) > 0 {
-			_, reason = reasonOf(conds[0], be)
-			reason = newAccCall.ReplaceAllString(reason, "newAcc")
-			reason = strings.ReplaceAll(reason, "<revocation.Witness>.SignedAccumulator.Accumulator", "ourAcc")
+		canon := func(a Atom) string {
+			_, t := reasonOf(a, be)
+			t = newAccCall.ReplaceAllString(t, "newAcc")
+			return strings.ReplaceAll(t, "<revocation.Witness>.SignedAccumulator.Accumulator", "ourAcc")
 		}
-		_, ok := quietReasons[reason]
-		R.decide(rule, kWitUpdate+":quiet-return:"+reason, "a return of nil that leaves the witness as it was is one of the specified ones", ok, "nearest condition: "+reason, P.Pos(r.Pos()))
+		// on every path to this return one of the "nothing new" conditions was established
+		q := (&MustPass{P: P, NoInterproc: true, Match: func(a Atom) bool {
+			t := canon(a)
+			for _, qr := range quietReasons {
+				if matches(qr.re)(t) {
+					return true
+				}
+			}
+			return false
+		}}).MustReach(fn, r)
+		var all []string
+		for _, c := range controllingConds(r.Block()) {
+			all = append(all, canon(c))
+		}
+		reason := "nothing-new"
+		if !q.Holds {
+			reason = "unconditional"
+			if len(all) > 0 {
+				reason = all[0]
+			}
+		}
+		R.decide(rule, kWitUpdate+":quiet-return:"+reason, "a return of nil that leaves the witness as it was is reached only under one of the specified conditions (no events, not beyond our index, same index and not newer)", q.Holds, "dominating conditions: "+strings.Join(all, " ; ")+"\n"+q.Path, P.Pos(r.Pos()))
 	}
-	R.decide(rule, kWitUpdate+":quiet-returns", "the quiet returns were enumerated (>= 3)", n >= 3, fmt.Sprintf("%d", n), P.Pos(fn.Pos()))
+	R.decide(rule, kWitUpdate+":quiet-returns", "the quiet returns were enumerated (>= 1)", n >= 1, fmt.Sprintf("%d", n), P.Pos(fn.Pos()))
 }
